@@ -28,6 +28,8 @@
     loadr <u|c> <min> <usemapcnt> <abortAt> <chgAt> <chgMin> {<raw record>}*   like loadb, with a config change
                                (CFG.AllBalances.MinValue = chgMin; common.Reset()) landing after record chgAt (0 = none)
                                                                 -> ok <min in force> | aborted <min in force> | panic
+    keepundo <height> <lastKnown> <unwindBufLen>  -> 1 | 0   chain.commitTxs: does a block connected at `height` while the best
+                               known header is `lastKnown` keep undo data (Model.BalancesBlock.keepsUndo)
     sip <bytes>             -> <decimal ourHash>
     s2i <script>            -> none | <idx> <uidx> <payload>
 -/
@@ -36,6 +38,7 @@ import GocoinV.Model.BalancesLoad
 import GocoinV.Model.BalancesDisk
 import GocoinV.Model.BalancesAddr
 import GocoinV.Model.BalancesCfg
+import GocoinV.Model.BalancesBlock
 import GocoinV.Base.Proto
 open GocoinV GocoinV.Model.Balances GocoinV.Spec.Balances GocoinV.Model.BalancesLoad GocoinV.Model.BalancesDisk GocoinV.Model.BalancesCfg
 
@@ -165,6 +168,11 @@ def step1 (s : State) (toks : List String) : State × String :=
     match um.toNat?, parseOrds rest.length rest with
     | some um, some ords => (step H s (.reload um ords), "ok")
     | _, _ => bad
+  | ["keepundo", h, lk, u] =>
+    match h.toNat?, lk.toNat?, u.toNat? with
+    | some h, some lk, some u =>
+      (s, Proto.boolStr (GocoinV.Model.BalancesBlock.keepsUndo u { height := h, lastKnown := lk, work := [] }))
+    | _, _, _ => bad
   | ["dump"] => (s, dumpBal s)
   | ["utxo"] => (s, dumpUtxo s)
   | ["getall", idx, payload] =>
